@@ -337,9 +337,18 @@ def r1_links(program, folder, rep):
             rem_expr = parse_expr("%s - (%s)" % (unparse(l_), unparse(r_)))
         sdl = Poly.atom("self.scp_data_length")
         ent = [le(4, sdl)]
+        # a byte count handed in is not negative; that also holds for a
+        # local the count is copied into before the loop
+        names_ = set(x.id for x in ast.walk(rem_expr)
+                     if isinstance(x, ast.Name))
+        for d_ in fl.defs:
+            if d_.var in names_ and d_.mode == "assign" and \
+                    d_.value is not None and \
+                    not any(d_.node.ast is y for y in ast.walk(loop)):
+                names_ |= set(x.id for x in ast.walk(d_.value)
+                              if isinstance(x, ast.Name))
         for p_ in formals(fn):
-            if any(isinstance(x, ast.Name) and x.id == p_
-                   for x in ast.walk(rem_expr)):
+            if p_ in names_ and p_ != "self":
                 ent.append(le(0, Poly.atom(p_)))
         it0 = Interp(fn, entry_cons=ent, consts=consts,
                      pure_self_methods=("_send_scp",))
@@ -441,9 +450,19 @@ def r1_links(program, folder, rep):
         guards = set()
         for r in rs:
             for cond, pol, a in fl.facts(fl.cfg.node_of(r)):
-                if pol and isinstance(cond, ast.BinOp) and isinstance(
-                        cond.op, ast.Mod):
-                    guards.add(unparse(cond))
+                # a non-zero residue modulo 4 (x % 4, x & 3, ... != 0)
+                if isinstance(cond, ast.Compare) and len(cond.ops) == 1 \
+                        and isinstance(cond.ops[0], (ast.NotEq, ast.Eq)) \
+                        and pol == isinstance(cond.ops[0], ast.NotEq):
+                    sides = [cond.left, cond.comparators[0]]
+                    zero = [x for x in sides
+                            if isinstance(x, ast.Constant) and x.value == 0]
+                    rest = [x for x in sides if x not in zero]
+                    if len(zero) == 1 and len(rest) == 1:
+                        cond, pol = rest[0], True
+                res_ = dv.residue_of(cond) if pol else None
+                if res_ is not None:
+                    guards.add("%s %% 4" % unparse(res_))
         ps = formals(fn)
         want = {"%s %% 4" % ps[1]}
         want.add("%s %% 4" % ps[2] if kind == "read" else
